@@ -90,17 +90,18 @@ State0(files, lf) ==
       rt |-> "none", rtFlag |-> FALSE, \* runtime automaton, ManagedThread flag
       ag |-> <<>>,                     \* agent name -> [kind, st, subs, flag, err]
       regOpen |-> TRUE, cancelOnce |-> FALSE, initDone |-> FALSE,
-      renderer |-> "none", rendInv |-> 0, rendReason |-> "", firstFatal |-> "none",
+      renderer |-> "none", rendInv |-> 0, rendSrc |-> 0, rendReason |-> "", firstFatal |-> "none",
       ig |-> InitGates, vg |-> InvGates,
       shutOn |-> FALSE, shutAwait |-> {},
-      pcV |-> [pc |-> "off", k |-> 0, err |-> ""],               \* handleInvoke
-      pcR |-> [pc |-> "off", reason |-> "", by |-> "none"],      \* Server.Reset goroutine
-      pcS |-> [pc |-> "off", by |-> "", rtp |-> <<>>, todo |-> {}, reason |-> ""],  \* shutdown()
+      pcV |-> [pc |-> "off", k |-> 0, src |-> 0, err |-> ""],    \* handleInvoke (k: request id, src: dispatching call)
+      rs |-> <<>>, rdone |-> 0,                                  \* Server.Reset goroutines, pending ResetDoneChan messages
+      pcS |-> [pc |-> "off", by |-> <<>>, rtp |-> <<>>, todo |-> {}, reason |-> ""],  \* shutdown()
       pcW |-> [pc |-> "idle", p |-> <<>>, err |-> ""],           \* events watcher
-      srv |-> [inv |-> 0, stream |-> FALSE, sent |-> FALSE, cached |-> NoCached, phase |-> "idle",
-               done |-> "empty", initOut |-> "unset", owner |-> "none"],
-      cl |-> [c \in Callers |-> [pc |-> "idle", k |-> 0, pl |-> 0, out |-> "", body |-> NoBody]],
-      ninv |-> 0, pls |-> <<>>,        \* invocation ordinal -> payload label
+      srv |-> [inv |-> 0, stream |-> FALSE, sent |-> FALSE, sowner |-> 0, cached |-> NoCached, phase |-> "idle",
+               done |-> "empty", initOut |-> "unset", resc |-> {}],
+      iv |-> <<>>,                     \* invocation ordinal -> Server.Invoke record
+      busy |-> [c \in Callers |-> 0],  \* caller -> its invocation in progress
+      ninv |-> 0,
       calls |-> <<>>, ncalls |-> 0,
       crashed |-> FALSE,
       tel |-> <<>> ]
@@ -226,7 +227,7 @@ DispatchDo(s) ==
     IN IF sc[2] # "ok"
        THEN [s1 EXCEPT !.vg = vg1, !.pcV.pc = "fail", !.pcV.err = "ErrGateIntegrity"]
        ELSE [s1 EXCEPT !.vg = [vg1 EXCEPT !.agReady = sc[1]],
-                       !.renderer = "invoke", !.rendInv = s.pcV.k,
+                       !.renderer = "invoke", !.rendInv = s.pcV.k, !.rendSrc = s.pcV.src,
                        !.ag = [a \in Agents(s) |-> IF a \in subs THEN [s.ag[a] EXCEPT !.flag = TRUE] ELSE s.ag[a]],
                        !.rtFlag = TRUE,
                        !.pcV.pc = "v3"]
@@ -255,133 +256,181 @@ AwaitAgentsBackDo(s) ==
 \* platform-generated error body for a failed invocation: names the first fault
 DefaultErr(s) == <<"err", IF s.firstFatal = "none" THEN "Sandbox.Failure" ELSE s.firstFatal>>
 
-\* handleInvoke returns: mutex released; the FastInvoke goroutine turns the result into a
-\* completion message (success / failure with cached-init-error or default body / nothing after a reset).
-\* The default error is addressed to the invocation that is current at send time.
+\* handleInvoke returns: mutex released; the result goes to the inner FastInvoke goroutine of the
+\* call that dispatched it (success -> completion message; reset -> nothing; other failure ->
+\* default error body naming the first fault, then a failure message)
 InvokeReturnEn(s) == s.pcV.pc \in {"ok", "fail"}
 InvokeReturnDo(s) ==
-    LET s1 == [s EXCEPT !.hm = "free", !.pcV = [pc |-> "off", k |-> 0, err |-> ""]] IN
-    IF s.pcV.pc = "ok" THEN [s1 EXCEPT !.srv.done = "ok"]
-    ELSE IF s.pcV.err = "reset" THEN s1
-    ELSE IF s.srv.inv = 0 \/ ~s.srv.stream THEN [s1 EXCEPT !.crashed = TRUE]    \* log.Panicf
-    ELSE IF s.srv.sent THEN [s1 EXCEPT !.srv.done = "fail"]
-    ELSE [s1 EXCEPT !.srv.sent = TRUE, !.srv.done = "fail",
-                    !.cl[s.srv.owner].body = IF s.srv.cached # NoCached THEN s.srv.cached ELSE DefaultErr(s)]
+    LET s1 == [s EXCEPT !.hm = "free", !.pcV = [pc |-> "off", k |-> 0, src |-> 0, err |-> ""]]
+        k == s.pcV.src
+    IN IF s.pcV.pc = "ok" THEN [s1 EXCEPT !.iv[k].i = "sendok"]
+       ELSE IF s.pcV.err = "reset" THEN [s1 EXCEPT !.iv[k].i = "off"]
+       ELSE [s1 EXCEPT !.iv[k].i = "deferr", !.iv[k].derr = DefaultErr(s)]
 
 ----------------------------------------------------------------------------
-(* Server.Invoke of caller c: timer, Reserve, awaitInitialized, FastInvoke, *)
-(* AwaitRelease, Reset                                                     *)
+(* Server.Invoke, one record per invocation k (rapidcore/server.go:627-739): *)
+(*   m  main goroutine: timer select, Reset("Timeout"), final Release        *)
+(*   r  release goroutine: Reserve, AwaitRelease, Reset("ReleaseFail")       *)
+(*   f  FastInvoke goroutine: awaitInitialized, Shutdown after a failed      *)
+(*      init, setReplyStream, hand-over to the orchestrator                  *)
+(*   i  its inner goroutine: invoker.Wait, default error, completion message *)
+(* The goroutines f and i of an invocation may outlive its answer.           *)
 
-CallerStartEn(s, c) == s.cl[c].pc = "idle"
+NewInv(c, pl) == [c |-> c, pl |-> pl, id |-> 0, m |-> "start", r |-> "off", f |-> "off", i |-> "off",
+                  out |-> "", relRes |-> "", body |-> NoBody, derr |-> NoBody]
+
+WithInv(s, k, rec) == [s EXCEPT !.iv = [x \in DOMAIN s.iv \cup {k} |-> IF x = k THEN rec ELSE s.iv[x]]]
+
+\* Server.Release: cancel the reservation context, forget the invoke context
+Release(s) ==
+    IF s.srv.inv = 0 THEN s
+    ELSE [s EXCEPT !.srv.resc = @ \cup {s.srv.inv}, !.srv.inv = 0, !.srv.stream = FALSE, !.srv.sent = FALSE,
+                   !.srv.sowner = 0]
+
+\* observable: a caller enters Server.Invoke
+CallerStartEn(s, c) == s.busy[c] = 0
 CallerStartDo(s, c, pl) ==
-    [s EXCEPT !.ninv = @ + 1, !.cl[c] = [pc |-> "res", k |-> s.ninv + 1, pl |-> pl, out |-> "", body |-> NoBody],
-              !.pls = [k \in DOMAIN s.pls \cup {s.ninv + 1} |-> IF k = s.ninv + 1 THEN pl ELSE s.pls[k]]]
+    LET k == s.ninv + 1 IN
+    [WithInv(s, k, NewInv(c, pl)) EXCEPT !.ninv = k, !.busy[c] = k]
 
-CallerReserveEn(s, c) == s.cl[c].pc = "res"
-CallerReserveDo(s, c) ==
-    IF s.srv.initOut = "unset" THEN [s EXCEPT !.cl[c].pc = "ret", !.cl[c].out = "InitNotStarted"]
-    ELSE IF s.srv.inv # 0
-    THEN \* Reserve failed, reserveResp is nil and is dereferenced in the release goroutine (F-C10-1)
-         [s EXCEPT !.crashed = TRUE, !.cl[c].pc = "dead"]
-    ELSE [s EXCEPT !.srv.inv = s.cl[c].k, !.srv.stream = FALSE, !.srv.sent = FALSE,
-                   !.srv.owner = c, !.cl[c].pc = "ainit"]
+\* main: initFailures channel not created yet -> ErrInitNotStarted; else start the release goroutine
+MainBeginEn(s, k) == s.iv[k].m = "start"
+MainBeginDo(s, k) ==
+    IF s.srv.initOut = "unset" THEN [s EXCEPT !.iv[k].m = "ret", !.iv[k].out = "InitNotStarted"]
+    ELSE [s EXCEPT !.iv[k].m = "sel", !.iv[k].r = "res"]
 
-\* awaitInitialized: blocks until init finished; the first reader consumes a failure,
-\* caches an init error response unless the runtime supplied one, and shuts the environment down
-CallerAwaitInitEn(s, c) == s.cl[c].pc = "ainit" /\ s.srv.initOut \in {"ok", "fail", "closed"}
-CallerAwaitInitDo(s, c) ==
+\* release goroutine: Reserve.  A failed reservation is reported through releaseErrChan
+\* (tree after the fix of F-C10-1; the tree as found dereferenced the nil response and crashed).
+RelReserveEn(s, k) == s.iv[k].r = "res"
+RelReserveDo(s, k) ==
+    IF s.srv.inv # 0 THEN [s EXCEPT !.iv[k].r = "senderr", !.iv[k].relRes = "AlreadyReserved"]
+    ELSE [s EXCEPT !.srv.inv = k, !.srv.stream = FALSE, !.srv.sent = FALSE, !.srv.sowner = 0,
+                   !.iv[k].r = "await", !.iv[k].f = "ainit"]
+
+\* FastInvoke goroutine: awaitInitialized blocks until init finished; the first reader consumes a
+\* failure, caches an (empty) init error response unless the runtime supplied one, and shuts down
+FioAwaitInitEn(s, k) == s.iv[k].f = "ainit" /\ s.srv.initOut \in {"ok", "fail", "closed"}
+FioAwaitInitDo(s, k) ==
     IF s.srv.initOut = "fail"
-    THEN [s EXCEPT !.srv.initOut = "closed",
-                   !.srv.cached = IF @ = NoCached THEN NoBody ELSE @,      \* an error response with an empty payload
-                   !.cl[c].pc = "shut"]
-    ELSE [s EXCEPT !.srv.initOut = "closed", !.cl[c].pc = "fast"]
+    THEN [s EXCEPT !.srv.initOut = "closed", !.srv.cached = IF @ = NoCached THEN NoBody ELSE @, !.iv[k].f = "shut"]
+    ELSE [s EXCEPT !.srv.initOut = "closed", !.iv[k].f = "fast"]
 
-\* (after an init failure) Server.Shutdown -> HandleShutdown under the handler mutex
-CallerShutdownEn(s, c) == s.cl[c].pc = "shut" /\ s.hm = "free" /\ s.pcS.pc = "off"
-CallerShutdownDo(s, c) ==
-    [s EXCEPT !.hm = "shutdown", !.cl[c].pc = "shutw",
-              !.pcS = [pc |-> "s0", by |-> "caller", rtp |-> <<>>, todo |-> {}, reason |-> "spindown"]]
+\* Server.Shutdown -> HandleShutdown under the handler mutex
+FioShutdownEn(s, k) == s.iv[k].f = "shut" /\ s.hm = "free" /\ s.pcS.pc = "off"
+FioShutdownDo(s, k) ==
+    [s EXCEPT !.hm = "shutdown", !.iv[k].f = "shutw",
+              !.pcS = [pc |-> "s0", by |-> <<"fio", k>>, rtp |-> <<>>, todo |-> {}, reason |-> "spindown"]]
 
-CallerShutdownDoneEn(s, c) == s.cl[c].pc = "shutw" /\ s.pcS.pc = "done" /\ s.pcS.by = "caller"
-CallerShutdownDoneDo(s, c) ==
-    [s EXCEPT !.hm = "free", !.cl[c].pc = "fast", !.srv.phase = "idle",
-              !.pcS = [pc |-> "off", by |-> "", rtp |-> <<>>, todo |-> {}, reason |-> ""]]
+FioShutdownDoneEn(s, k) == s.iv[k].f = "shutw" /\ s.pcS.pc = "done" /\ s.pcS.by = <<"fio", k>>
+FioShutdownDoneDo(s, k) ==
+    [s EXCEPT !.hm = "free", !.iv[k].f = "fast", !.srv.phase = "idle",
+              !.pcS = [pc |-> "off", by |-> <<>>, rtp |-> <<>>, todo |-> {}, reason |-> ""]]
 
-\* FastInvoke: attach the reply stream, hand the invocation to the orchestrator
-CallerFastInvokeEn(s, c) == s.cl[c].pc = "fast" /\ s.pcV.pc = "off"
-CallerFastInvokeDo(s, c) ==
+\* FastInvoke: attach this call's reply stream to whatever reservation is current, take its id,
+\* start the inner goroutine
+FioFastInvokeEn(s, k) == s.iv[k].f = "fast"
+FioFastInvokeDo(s, k) ==
     IF s.srv.inv = 0 \/ s.srv.sent \/ s.srv.stream
-    THEN [s EXCEPT !.cl[c].pc = "wait"]      \* FastInvoke returns an error, nothing is dispatched
-    ELSE [s EXCEPT !.srv.stream = TRUE, !.srv.phase = "invoking",
-                   !.pcV = [pc |-> "v0", k |-> s.srv.inv, err |-> ""], !.cl[c].pc = "wait"]
+    THEN [s EXCEPT !.iv[k].f = "off"]        \* NotReserved / AlreadyReplied / AlreadyInvocating: nothing dispatched
+    ELSE [s EXCEPT !.srv.stream = TRUE, !.srv.sowner = k, !.srv.phase = "invoking",
+                   !.iv[k].f = "off", !.iv[k].i = "start", !.iv[k].id = s.srv.inv]
 
-\* AwaitRelease: success -> Release; the caller gets what was written to its reply stream
-CallerDoneOkEn(s, c) == s.cl[c].pc = "wait" /\ s.srv.owner = c /\ s.srv.done = "ok"
-CallerDoneOkDo(s, c) ==
-    [s EXCEPT !.cl[c].pc = "ret", !.cl[c].out = "",
-              !.srv.done = "empty", !.srv.inv = 0, !.srv.stream = FALSE, !.srv.sent = FALSE,
-              !.srv.phase = "idle", !.srv.owner = "none"]
+\* inner goroutine: invoker.SendRequest starts HandleInvoke (which queues on the handler mutex)
+FiiStartEn(s, k) == s.iv[k].i = "start" /\ s.pcV.pc = "off"
+FiiStartDo(s, k) == [s EXCEPT !.pcV = [pc |-> "v0", k |-> s.iv[k].id, src |-> k, err |-> ""], !.iv[k].i = "wait"]
 
-\* AwaitRelease: failure -> Reset("ReleaseFail", 2000)
-CallerDoneFailEn(s, c) == s.cl[c].pc = "wait" /\ s.srv.owner = c /\ s.srv.done = "fail" /\ s.pcR.pc = "off"
-CallerDoneFailDo(s, c) ==
-    [s EXCEPT !.cl[c].pc = "rfail", !.srv.done = "empty", !.srv.phase = "idle",
-              !.pcR = [pc |-> "r0", reason |-> "ReleaseFail", by |-> c]]
+\* invoke failed (not by a reset): default error to the invocation that is CURRENT AT SEND TIME;
+\* the cached init error response wins over the default body
+FiiDefaultErrorEn(s, k) == s.iv[k].i = "deferr"
+FiiDefaultErrorDo(s, k) ==
+    LET body == IF s.srv.cached # NoCached THEN s.srv.cached ELSE s.iv[k].derr IN
+    IF s.srv.inv = 0 \/ ~s.srv.stream THEN [s EXCEPT !.crashed = TRUE, !.iv[k].i = "off"]     \* log.Panicf
+    ELSE IF s.srv.sent THEN [s EXCEPT !.iv[k].i = "sendfail"]
+    ELSE [s EXCEPT !.srv.sent = TRUE, !.iv[s.srv.sowner].body = body, !.iv[k].i = "sendfail"]
 
-\* the timer fires while the invocation is in flight -> Reset("Timeout", 2000)
-CallerTimeoutEn(s, c) ==
-    /\ s.cl[c].pc \in {"ainit", "shut", "shutw", "fast", "wait"}
-    /\ s.srv.owner = c /\ s.pcR.pc = "off"
-CallerTimeoutDo(s, c) ==
-    [s EXCEPT !.cl[c].pc = "rtimeout", !.pcR = [pc |-> "r0", reason |-> "Timeout", by |-> c]]
+\* completion message into the buffered InvokeDoneChan (blocks while it is full)
+FiiSendDoneEn(s, k) == s.iv[k].i \in {"sendok", "sendfail"} /\ s.srv.done = "empty"
+FiiSendDoneDo(s, k) == [s EXCEPT !.srv.done = IF s.iv[k].i = "sendok" THEN "ok" ELSE "fail", !.iv[k].i = "off"]
 
-\* Reset returned to the caller's goroutine (the body is whatever its reply stream holds)
-CallerAfterResetEn(s, c) == s.cl[c].pc \in {"rfail", "rtimeout"} /\ s.pcR.pc = "done" /\ s.pcR.by = c
-CallerAfterResetDo(s, c) ==
-    [s EXCEPT !.pcR = [pc |-> "off", reason |-> "", by |-> "none"],
-              !.cl[c].pc = "ret",
-              !.cl[c].out = IF s.cl[c].pc = "rtimeout" THEN "InvokeTimeout" ELSE "InvokeDoneFailed"]
+\* AwaitRelease of invocation k: a completion message (of whichever invocation) or the end of
+\* its reservation
+RelAwaitEn(s, k) == s.iv[k].r = "await" /\ (s.srv.done # "empty" \/ k \in s.srv.resc)
+RelAwaitDo(s, k) ==
+    IF s.srv.done = "ok"
+    THEN [Release([s EXCEPT !.srv.done = "empty", !.srv.phase = "idle"]) EXCEPT !.iv[k].r = "sendok"]
+    ELSE IF s.srv.done = "fail"
+    THEN [s EXCEPT !.srv.done = "empty", !.srv.phase = "idle", !.iv[k].r = "rst",
+                   !.rs = [x \in DOMAIN s.rs \cup {<<k, "F">>} |->
+                              IF x = <<k, "F">> THEN [pc |-> "r0", reason |-> "ReleaseFail"] ELSE s.rs[x]]]
+    ELSE [s EXCEPT !.srv.phase = "idle", !.iv[k].r = "sendok"]     \* ErrReleaseReservationDone is not an error
+
+\* Reset returned to the release goroutine: Release, then the error goes to main
+RelAfterResetEn(s, k) == s.iv[k].r = "rst" /\ s.rdone > 0
+RelAfterResetDo(s, k) ==
+    [Release([s EXCEPT !.rdone = @ - 1]) EXCEPT !.iv[k].r = "senderr", !.iv[k].relRes = "InvokeDoneFailed"]
+
+\* main receives from releaseSuccessChan / releaseErrChan
+MainGotResultEn(s, k) == s.iv[k].m = "sel" /\ s.iv[k].r \in {"sendok", "senderr"}
+MainGotResultDo(s, k) ==
+    IF s.iv[k].r = "sendok"
+    THEN [Release(s) EXCEPT !.iv[k].m = "ret", !.iv[k].out = "", !.iv[k].r = "off"]
+    ELSE [s EXCEPT !.iv[k].m = "ret", !.iv[k].out = s.iv[k].relRes, !.iv[k].r = "off"]
+
+\* the timer fires: Reset("Timeout", 2000)
+MainTimeoutEn(s, k) == s.iv[k].m = "sel"
+MainTimeoutDo(s, k) ==
+    [s EXCEPT !.iv[k].m = "rst",
+              !.rs = [x \in DOMAIN s.rs \cup {<<k, "T">>} |->
+                         IF x = <<k, "T">> THEN [pc |-> "r0", reason |-> "Timeout"] ELSE s.rs[x]]]
+
+MainAfterResetEn(s, k) == s.iv[k].m = "rst" /\ s.rdone > 0
+MainAfterResetDo(s, k) == [Release([s EXCEPT !.rdone = @ - 1]) EXCEPT !.iv[k].m = "sel2"]
+
+MainAfterTimeoutEn(s, k) == s.iv[k].m = "sel2" /\ s.iv[k].r \in {"sendok", "senderr"}
+MainAfterTimeoutDo(s, k) == [s EXCEPT !.iv[k].m = "ret", !.iv[k].out = "InvokeTimeout", !.iv[k].r = "off"]
 
 \* observable: the caller has its outcome
-CallerReturnEn(s, c) == s.cl[c].pc = "ret"
-CallerReturnDo(s, c) == [s EXCEPT !.cl[c].pc = "idle"]
+CallerReturnEn(s, c) == s.busy[c] # 0 /\ s.iv[s.busy[c]].m = "ret"
+CallerReturnDo(s, c) == [s EXCEPT !.iv[s.busy[c]].m = "gone", !.busy[c] = 0]
 
 ----------------------------------------------------------------------------
-(* Server.Reset goroutine: sandboxContext.Reset (HandleReset, then Clear), *)
-(* server Clear (drain completion channel, Release)                        *)
+(* Server.Reset goroutines (one per Reset call, x = <<k, "T"|"F">>):       *)
+(* sandboxContext.Reset (HandleReset, then Clear), server Clear (drain     *)
+(* completion channel, Release), hand-over on ResetDoneChan                *)
 
 \* HandleReset: cancel flows first (without the mutex) ...
-ResetCancelEn(s) == s.pcR.pc = "r0"
-ResetCancelDo(s) == [CancelFlows(s, "reset") EXCEPT !.pcR.pc = "r1"]
+ResetCancelEn(s, x) == s.rs[x].pc = "r0"
+ResetCancelDo(s, x) == [CancelFlows(s, "reset") EXCEPT !.rs[x].pc = "r1"]
 
 \* ... then take the handler mutex and shut the environment down
-ResetLockEn(s) == s.pcR.pc = "r1" /\ s.hm = "free" /\ s.pcS.pc = "off"
-ResetLockDo(s) ==
-    [s EXCEPT !.hm = "reset", !.pcR.pc = "r2",
-              !.pcS = [pc |-> "s0", by |-> "reset", rtp |-> <<>>, todo |-> {}, reason |-> s.pcR.reason]]
+ResetLockEn(s, x) == s.rs[x].pc = "r1" /\ s.hm = "free" /\ s.pcS.pc = "off"
+ResetLockDo(s, x) ==
+    [s EXCEPT !.hm = "reset", !.rs[x].pc = "r2",
+              !.pcS = [pc |-> "s0", by |-> <<"reset", x>>, rtp |-> <<>>, todo |-> {}, reason |-> s.rs[x].reason]]
 
-\* shutdown finished: generation++, mutex released, then reinitialize (Clear) and the server's Clear
-ResetFinishEn(s) == s.pcR.pc = "r2" /\ s.pcS.pc = "done" /\ s.pcS.by = "reset"
-ResetFinishDo(s) ==
-    [s EXCEPT !.gen = @ + 1, !.hm = "free", !.pcR.pc = "r3",
-              !.pcS = [pc |-> "off", by |-> "", rtp |-> <<>>, todo |-> {}, reason |-> ""]]
+\* shutdown finished: generation++, mutex released
+ResetFinishEn(s, x) == s.rs[x].pc = "r2" /\ s.pcS.pc = "done" /\ s.pcS.by = <<"reset", x>>
+ResetFinishDo(s, x) ==
+    [s EXCEPT !.gen = @ + 1, !.hm = "free", !.rs[x].pc = "r3",
+              !.pcS = [pc |-> "off", by |-> <<>>, rtp |-> <<>>, todo |-> {}, reason |-> ""]]
 
-\* reinitialize: appctx keys, renderer, initDone, registration service, flows
+\* reinitialize (rapidContext.Clear): appctx keys, renderer, initDone, registration service, flows
 \* (gate.Clear keeps the expected count)
-ResetClearEn(s) == s.pcR.pc = "r3"
-ResetClearDo(s) ==
+ResetClearEn(s, x) == s.rs[x].pc = "r3"
+ResetClearDo(s, x) ==
     [s EXCEPT !.firstFatal = "none", !.renderer = "none", !.initDone = FALSE,
               !.rt = "none", !.rtFlag = FALSE, !.ag = <<>>, !.regOpen = TRUE, !.cancelOnce = FALSE,
-              !.ig = ClearAll(@), !.vg = ClearAll(@), !.pcR.pc = "r4",
+              !.ig = ClearAll(@), !.vg = ClearAll(@), !.rs[x].pc = "r4",
               \* handlers parked on objects of the old generation are never woken again
               !.calls = [c \in DOMAIN s.calls |-> IF s.calls[c].st = "parked"
                                                   THEN [s.calls[c] EXCEPT !.st = "orphan"] ELSE s.calls[c]]]
 
-\* Server.Clear: drain InvokeDoneChan, Release; then ResetDoneChan hand-over and Release by the caller of Reset
-ResetServerClearEn(s) == s.pcR.pc = "r4"
-ResetServerClearDo(s) ==
-    [s EXCEPT !.srv.done = "empty", !.srv.inv = 0, !.srv.stream = FALSE, !.srv.sent = FALSE,
-              !.srv.owner = "none", !.srv.phase = "idle", !.pcR.pc = "done"]
+\* Server.Clear: drain InvokeDoneChan, Release; phase idle; the message on ResetDoneChan is taken by
+\* whichever Reset call is waiting
+ResetServerClearEn(s, x) == s.rs[x].pc = "r4"
+ResetServerClearDo(s, x) ==
+    [Release([s EXCEPT !.srv.done = "empty", !.srv.phase = "idle"]) EXCEPT
+        !.rdone = @ + 1, !.rs = [y \in DOMAIN s.rs \ {x} |-> s.rs[y]]]
 
 ----------------------------------------------------------------------------
 (* shutdown(): TERM/KILL/SHUTDOWN choreography (shutdown.go)               *)
@@ -498,7 +547,7 @@ Forbidden(s, c) == Answer(s, c, Res(403, "InvalidStateTransition"))
 \* what the runtime receives when its poll is answered
 RenderRt(s) ==
     CASE s.renderer = "invoke"   -> [NoRes EXCEPT !.status = 200, !.kind = "INVOKE", !.inv = s.rendInv,
-                                                  !.pl = IF s.rendInv \in DOMAIN s.pls THEN s.pls[s.rendInv] ELSE 0]
+                                                  !.pl = IF s.rendSrc \in DOMAIN s.iv THEN s.iv[s.rendSrc].pl ELSE 0]
       [] s.renderer = "restore"  -> Res(200, "")
       [] s.renderer = "shutdown" -> Res(0, "")        \* the handler panics ("We should SIGTERM runtime"): connection closed
       [] OTHER                   -> Res(500, "InternalServerError")
@@ -547,7 +596,7 @@ SendBody(s, id, body, big) ==
     ELSE IF s.srv.sent THEN <<s, "ResponseSent">>
     ELSE IF ~s.srv.stream THEN <<s, "NoStream">>
     ELSE IF big THEN <<s, "TooLarge">>
-    ELSE <<[s EXCEPT !.srv.sent = TRUE, !.cl[s.srv.owner].body = body], "ok">>
+    ELSE <<[s EXCEPT !.srv.sent = TRUE, !.iv[s.srv.sowner].body = body], "ok">>
 
 \* runtime.ResponseSent(): state ResponseSent and arrival at the response latch (an error panics the handler)
 RtResponseSent(s, c, okRes) ==
@@ -659,6 +708,9 @@ EffectDo(s, c) ==
       [] call.api = "initerror" -> RtInitErrorEffect(s, c)
       [] call.api = "register" -> RegisterEffect(s, c)
       [] call.api = "exterror" -> ExtErrorEffect(s, c)
+      \* routing: unknown routes, wrong methods, snapshot routes outside snapshot mode (class in call.name)
+      [] call.api = "route" -> Answer(s, c, [NoRes EXCEPT !.status = IF call.name = "404" THEN 404
+                                                                      ELSE IF call.name = "405" THEN 405 ELSE 200])
       [] OTHER -> Answer(s, c, Res(404, ""))
 
 \* a parked poll is released (Release: flag := TRUE, Signal)
@@ -695,10 +747,13 @@ Urgent(s) ==
     \/ LaunchExtEn(s) \/ LaunchRuntimeEn(s) \/ AfterRuntimeReadyEn(s) \/ AgentsReadyEn(s) \/ InitEndEn(s)
     \/ InvokeLockEn(s) \/ InvokeInitFailedEn(s) \/ DispatchEn(s) \/ AwaitResponseEn(s)
     \/ AwaitRuntimeBackEn(s) \/ AwaitAgentsBackEn(s) \/ InvokeReturnEn(s)
-    \/ \E c \in Callers :
-         \/ CallerReserveEn(s, c) \/ CallerAwaitInitEn(s, c) \/ CallerShutdownEn(s, c) \/ CallerShutdownDoneEn(s, c)
-         \/ CallerFastInvokeEn(s, c) \/ CallerDoneOkEn(s, c) \/ CallerDoneFailEn(s, c) \/ CallerAfterResetEn(s, c)
-    \/ ResetCancelEn(s) \/ ResetLockEn(s) \/ ResetFinishEn(s) \/ ResetClearEn(s) \/ ResetServerClearEn(s)
+    \/ \E k \in DOMAIN s.iv :
+         \/ MainBeginEn(s, k) \/ RelReserveEn(s, k) \/ FioAwaitInitEn(s, k) \/ FioShutdownEn(s, k)
+         \/ FioShutdownDoneEn(s, k) \/ FioFastInvokeEn(s, k) \/ FiiStartEn(s, k) \/ FiiDefaultErrorEn(s, k)
+         \/ FiiSendDoneEn(s, k) \/ RelAwaitEn(s, k) \/ RelAfterResetEn(s, k) \/ MainGotResultEn(s, k)
+         \/ MainAfterResetEn(s, k) \/ MainAfterTimeoutEn(s, k)
+    \/ \E x \in DOMAIN s.rs :
+         \/ ResetCancelEn(s, x) \/ ResetLockEn(s, x) \/ ResetFinishEn(s, x) \/ ResetClearEn(s, x) \/ ResetServerClearEn(s, x)
     \/ ShutBeginEn(s) \/ ShutKillRuntimeNowEn(s) \/ ShutTermRuntimeEn(s) \/ ShutRuntimeExitedEn(s) \/ ShutAgentsEn(s)
     \/ (\E p \in s.pcS.todo : ShutAgentExitedEn(s, p) \/ (ShutAgentKillEn(s, p) /\ p \notin s.shutAwait))
     \/ ShutAgentsJoinedEn(s) \/ ShutReapedEn(s)
